@@ -409,9 +409,8 @@ package fiber
 //@   ensures [C10] ips-exactly-listed-addresses: ipsExact(result.config.TrustProxyConfig, len(result.config.TrustProxyConfig.Proxies))
 //@   ensures [C10] ranges-only-listed-cidrs: rangesOnlyListed(result.config.TrustProxyConfig, len(result.config.TrustProxyConfig.Proxies))
 //@   ensures [C10] ranges-all-listed-cidrs: rangesAllListed(result.config.TrustProxyConfig, len(result.config.TrustProxyConfig.Proxies))
-// NOT STATED (engine: the whole-struct copy `app.config = config[0]` goes to an opaque heap and is not linked to the field
-// heaps - see the report): that result.config.{TrustProxy, ProxyHeader, EnableIPValidation, TrustProxyConfig.*} are the
-// caller's values. The clauses above hold for whatever list the field Proxies holds when the loop starts.
+// (Until session 5 the whole-struct copy `app.config = config[0]` was opaque to the generator and these clauses could not be
+// stated; it now copies such structs field by field, see trust-settings-are-the-callers / configured-handler-is-the-callers.)
 
 // the last two steps of New() do not touch the conversions or the Immutable flag
 //@ func defaultColors
